@@ -212,9 +212,17 @@ def handle (j : Json) : Json :=
   let spec := match Spec.expected W0 ss sargs kw with
     | none => Json.null
     | some e => outcomeJson e
+  -- `ret_measured`: what the return annotation itself does to the body's result, measured on the real type in
+  -- isolation (a logical combination is C09's subject; here it is the transformer `W.conv` of `parseResult`)
   let ret := match obj? j "retval" with
     | none => Json.null
-    | some r => match parseResult W0 (optStr (fld j "ret")) (valOf r) with
+    | some r =>
+      let res := match obj? j "ret_measured" with
+        | some m =>
+          let tbl : Option Val := (obj? m "ok").map valOf
+          parseResult ({ W0 with conv := fun _ _ => tbl } : World String Val String) (some "ret") (valOf r)
+        | none => parseResult W0 (optStr (fld j "ret")) (valOf r)
+      match res with
       | .ok v => jsonOf v
       | .perr => Json.str "perr"
   Json.mkObj [("model", outcomeJson out), ("spec", spec), ("ret", ret), ("decl_ok", Json.bool (declOk full (mkOpts o))),
